@@ -758,14 +758,14 @@ func (f *FeaturesByID) isGraphNode(point Reference) bool {
 				case PointTagCommon:
 					var p CommonPoint
 					p.Unmarshal(&fb.Namespaces, t.Data)
-					if len(p.Tags) > 0 {
+					if hasTagsBesidesGeometry(p.Tags, fb.Strings) {
 						return true
 					}
 					paths++
 				case PointTagFull:
 					var p FullPoint
 					p.Unmarshal(&fb.Namespaces, t.Data)
-					if len(p.Tags) > 0 {
+					if hasTagsBesidesGeometry(p.Tags, fb.Strings) {
 						return true
 					}
 					paths += len(p.Paths)
@@ -778,6 +778,17 @@ func (f *FeaturesByID) isGraphNode(point Reference) bool {
 					return true
 				}
 			}
+		}
+	}
+	return false
+}
+
+// hasTagsBesidesGeometry returns true if a point has a tag other than the
+// one that holds its location, which every point carries.
+func hasTagsBesidesGeometry(tags Tags, s *encoding.StringTable) bool {
+	for _, t := range tags {
+		if !s.Equal(t.Key, b6.PointTag) {
+			return true
 		}
 	}
 	return false
